@@ -49,7 +49,10 @@ class Arr:
         self.herm_off, self.diag_real = herm_off, diag_real
 
     def build(self, owner):
-        return ArrDesc(self.kind, self.shape, herm=self.herm, val=self.val, owner=owner, herm_off=self.herm_off,
+        val = self.val
+        if val is None and self.kind == "quat" and all(self.shape):
+            val = "nonzero"          # generic entries: away from zero by a margin (the zero matrix is a descriptor of its own)
+        return ArrDesc(self.kind, self.shape, herm=self.herm, val=val, owner=owner, herm_off=self.herm_off,
                        diag_real=self.diag_real)
 
     def label(self):
@@ -59,6 +62,8 @@ class Arr:
                 s += " herm"
             elif self.herm_off:
                 s += " herm-offdiag non-real-diag"
+            if self.val == "zero":
+                s += " zero"
             elif self.kind == "quat":
                 s += " non-herm"
         return s
@@ -243,7 +248,8 @@ TABLE = [
           options={"d": ["Dieudonné", "Dieudonne"]},
           indomain=[V("X=quat(1,1) herm d='Moore'", X=Q(1, 1, herm=True), d="Moore"),
                     V("X=quat(2,2) herm d='Moore'", X=Q(2, 2, herm=True), d="Moore"),
-                    V("X=quat(3,3) herm d='Moore'", X=Q(3, 3, herm=True), d="Moore")],
+                    V("X=quat(3,3) herm d='Moore'", X=Q(3, 3, herm=True), d="Moore"),
+                    V("X=quat(2,2) herm zero d='Moore'", X=Q(2, 2, herm=True, val="zero"), d="Moore")],
           cells=[Cell("NS", "ValueError", "`if r != c: raise` before the option chain",
                       variants=[V(f"X=quat{s} d={d!r}".replace(" ", ""), X=Q(*s), d=d) for s in NONSQUARE
                                 for d in ("Dieudonné", "Moore")]),
@@ -529,13 +535,16 @@ def cell_variants(entry, cell):
                    [(lab + " ord='inf'", {**o, "ord": "inf"}) for lab, o in _nq_variants(entry, {})]
         return [(lab + "".join(f" {k}={x!r}" for k, x in fixed.items()), o) for lab, o in _nq_variants(entry, fixed)]
     if cls == "NS":
-        return [V(f"{main}=quat{s}".replace(" ", ""), **{main: Q(*s)}) for s in NONSQUARE]
+        # generic entries, and the all-zero matrix of a non-square shape (value shortcuts must not precede the guard)
+        return [V(f"{main}=quat{s}".replace(" ", ""), **{main: Q(*s)}) for s in NONSQUARE] + \
+               [V(f"{main}={Q(*s, val='zero').label()} zero", **{main: Q(*s, val="zero")}) for s in [(2, 3), (1, 3)]]
     if cls == "NH":
         return [V(f"{main}=quat{s} non-herm".replace(" ", "", 1), **{main: Q(*s, herm=False)}) for s in [(1, 1), (2, 2), (3, 3)]] + \
                [V(f"{main}={QD(*s).label()}", **{main: QD(*s)}) for s in [(2, 2), (3, 3)]]
     if cls == "OR":
         shapes = [(2, 3), (1, 3), (1, 2)] if entry.domain == "tall" else [(3, 2), (3, 1), (2, 1)]
-        return [V(f"{main}=quat{s}".replace(" ", ""), **{main: Q(*s)}) for s in shapes]
+        return [V(f"{main}=quat{s}".replace(" ", ""), **{main: Q(*s)}) for s in shapes] + \
+               [V(f"{main}=quat{shapes[0]} zero".replace(" ", "", 1), **{main: Q(*shapes[0], val="zero")})]
     if cls == "ND":
         return [V(f"{main}=quat{s}".replace(" ", ""), **{main: Q(*s)}) for s in [(3,), (2, 2, 2)]]
     raise AnalysisError(f"C20 table: cell class {cls} of {entry.name} has no descriptor generator")
@@ -550,6 +559,11 @@ def indomain_variants(entry, thorough):
             flags = [True] if (entry.herm and square) else ([True, False] if square else [False])
             for h in flags:
                 spec = Q(*s, herm=h)
+                out.append((f"{entry.main}={spec.label()}", {entry.main: spec}))
+        if entry.herm:
+            # the zero matrix is Hermitian: in the domain of every Hermitian-only routine
+            for s in [x for x in shapes if x[0] == x[1]][:2]:
+                spec = Q(*s, herm=True, val="zero")
                 out.append((f"{entry.main}={spec.label()}", {entry.main: spec}))
     for p, vals in entry.options.items():
         for val in vals:
@@ -771,7 +785,11 @@ def run(ctx):
             for o in outs:
                 if o.kind == "raise":
                     continue          # data-dependent raise on an explored branch (not a guard of the table)
-                if o.kind == "implicit":
+                if o.kind == "implicit" and not partial and any(
+                        not _passed(o, F, node) and guard_still_ahead(prog, fi, o, g, F, node)
+                        for (_c, g, F, node) in cellguards):
+                    # a predicted python/numpy failure in front of a guard that has not been evaluated: undecidable.  Behind
+                    # every guard (deep in the numeric body, where the shape model is only approximate) it is E9a's business.
                     problems.append(f"{inst}: the descriptor model predicts an implicit {o.exc} ({o.reason}); cannot decide acceptance")
                 for i, (cname, g, F, node) in enumerate(cellguards):
                     if _passed(o, F, node):
